@@ -5,11 +5,12 @@ import Verif.Proofs.JsStringSim
 set_option linter.unusedSimpArgs false
 namespace Verif.Proofs.JsString
 open Verif.JsStrBase Verif.Spec.JsStringSem Verif.Model.JsString
+variable {cf : Bool}
 
 /-- a raw line terminator (only possible in a template) -/
 theorem sim_newline {m : Bool} {qi q : Nat} (cx : Ctx m qi q) {an : Bool} {c : Nat} {r w : List Nat}
-    (hc : c = 10 ∨ c = 13) (hg : Guard (c :: r) = true)
-    (hv : decBody m qi (c :: r) = some w) (ih : IH m qi q r.length) :
+    (hc : c = 10 ∨ c = 13) (hg : Guard cf (c :: r) = true)
+    (hv : decBody m qi (c :: r) = some w) (ih : IH cf m qi q r.length) :
     decBody m q (repA q an (c :: r)) = some w := by
   obtain ⟨us, k, v', hst, hv', hw⟩ := valid_cons hv
   have hqi : qi = 96 := by
@@ -20,7 +21,7 @@ theorem sim_newline {m : Bool} {qi q : Nat} (cx : Ctx m qi q) {an : Bool} {c : N
       simp at hst
   have hq : q = 96 := cx.hT hqi
   subst hqi; subst hq
-  have hg' : ∀ k, Guard (r.drop k) = true := guard_drop (by simpa using guard_drop hg 1)
+  have hg' : ∀ k, Guard cf (r.drop k) = true := guard_drop (by simpa using guard_drop hg 1)
   rcases hc with rfl | rfl
   · -- LF
     have : decStep m 96 10 r = some ([10], 0) := by simp [decStep]
@@ -61,7 +62,7 @@ theorem sim_newline {m : Bool} {qi q : Nat} (cx : Ctx m qi q) {an : Bool} {c : N
       rfl
 
 /-- **the simulation**: on the guarded fragment the output body denotes what the input body denotes -/
-theorem sim_all {m : Bool} {qi q : Nat} (cx : Ctx m qi q) : ∀ n, IH m qi q n := by
+theorem sim_all {m : Bool} {qi q : Nat} (cx : Ctx m qi q) (hcf : CaseC m qi q → cf = true) : ∀ n, IH cf m qi q n := by
   intro n
   induction n with
   | zero =>
@@ -75,7 +76,7 @@ theorem sim_all {m : Bool} {qi q : Nat} (cx : Ctx m qi q) : ∀ n, IH m qi q n :
     | nil => simpa using hv
     | cons c r =>
       have hrl : r.length ≤ n := by simpa using hl
-      have ih : IH m qi q r.length := ih_mono ihn hrl
+      have ih : IH cf m qi q r.length := ih_mono ihn hrl
       by_cases hc : c = 92
       · subst hc
         cases r with
@@ -83,11 +84,10 @@ theorem sim_all {m : Bool} {qi q : Nat} (cx : Ctx m qi q) : ∀ n, IH m qi q n :
           obtain ⟨us, k, v', hst, _, _⟩ := valid_cons hv
           rcases cx.hqi with h | h | h <;> (subst h; simp [decStep] at hst)
         | cons e r1 =>
-          have ih' : IH m qi q (e :: r1).length := ih
+          have ih' : IH cf m qi q (e :: r1).length := ih
           by_cases hk : e = q ∨ e = 92 ∨ e = 114 ∨ (q ≠ 96 ∧ e = 110)
           · exact sim_keep cx hk hg hv ih'
-          · have hd := guard_esc hg
-            have h48 : e ≠ 48 := by intro h; subst h; simp [isDig] at hd
+          · have h48 : e ≠ 48 := (guard_esc hg).1
             have hk' : ¬ (e = q ∨ e = 92 ∨ e = 114 ∨ (q ≠ 96 ∧ e = 110) ∨ (e = 48 ∧ ¬ r1.head?.any isOct)) := by
               rintro (h | h | h | h | ⟨h, _⟩)
               · exact hk (Or.inl h)
@@ -108,12 +108,19 @@ theorem sim_all {m : Bool} {qi q : Nat} (cx : Ctx m qi q) : ∀ n, IH m qi q n :
                     · exact hk (Or.inr (Or.inr (Or.inr ⟨h96, h⟩)))
                   by_cases hu : e = 117
                   · subst hu; exact sim_uni cx hg hv ih'
-                  · refine sim_ident cx hk' (by omega) ⟨hx, h110, ?_, ?_, ?_, ?_⟩ hu hg hv ih' <;>
-                      (intro h; apply hct; simp [h])
+                  · by_cases hdig : isDig e = true
+                    · by_cases hoct : isOct e = true
+                      · exact sim_oct cx hcf hoct h48 hg hv ih'
+                      · have h89 : e = 56 ∨ e = 57 := by
+                          simp only [isDig, isOct, Bool.and_eq_true, decide_eq_true_eq] at hdig hoct
+                          omega
+                        exact sim_89 cx h89 hg hv ih'
+                    · refine sim_ident cx hk' (by omega) ⟨hx, h110, ?_, ?_, ?_, ?_⟩ hu (by simpa using hdig) hg hv ih' <;>
+                        (intro h; apply hct; simp [h])
       · by_cases hnl : c = 10 ∨ c = 13
         · exact sim_newline cx hnl hg hv ih
         · obtain ⟨us, k, v', hst, hv', hw⟩ := valid_cons hv
-          have hg' : ∀ k, Guard (r.drop k) = true := guard_drop (by simpa using guard_drop hg 1)
+          have hg' : ∀ k, Guard cf (r.drop k) = true := guard_drop (by simpa using guard_drop hg 1)
           by_cases h128 : c < 128
           · have hcq : c ≠ qi := by
               intro h; subst h; simp [decStep] at hst
@@ -191,15 +198,36 @@ theorem templateLit_wrap {b : List Nat} : templateLit (96 :: (b ++ [96])) = 96 :
   rw [if_neg hl]
   simp
 
+/-- no backslash is followed by `0`: the fragment of the partial theorems -/
+def NoNul (l : List Nat) : Bool := Guard false l
+
+theorem guard_true_of {l : List Nat} (h1 : Guard false l = true) (h2 : gated l = false) : Guard true l = true := by
+  induction l with
+  | nil => rfl
+  | cons c r ih =>
+    simp only [Guard, Bool.and_eq_true] at h1 ⊢
+    simp only [gated, Bool.or_eq_false_iff] at h2
+    refine ⟨⟨h1.1.1, by simp [h2.1]⟩, ih h1.2 h2.2⟩
+
+theorem chooseQuote_tmpl {a : Bool} {b : List Nat} (h : chooseQuote a b = 96) : gated b = false := by
+  by_cases hc : (a && !gated b) = true ∧ cnt 3 b + cnt 5 b < (if cnt 1 b < cnt 2 b then cnt 1 b else cnt 2 b) + cnt 4 b
+  · have := hc.1
+    simp only [Bool.and_eq_true, Bool.not_eq_true'] at this
+    exact this.2
+  · exfalso
+    simp only [chooseQuote] at h
+    rw [if_neg hc] at h
+    split at h <;> (try split at h) <;> omega
+
 /-- value preservation for `'…'` / `"…"` literals on the guarded fragment -/
 theorem minifyString_value {m a : Bool} {s v : List Nat} (hq : s.head? = some 39 ∨ s.head? = some 34)
-    (hv : decodeLit m s = some v) (hg : Guard ((s.drop 1).dropLast) = true) :
+    (hv : decodeLit m s = some v) (hg : NoNul ((s.drop 1).dropLast) = true) :
     decodeLit m (minifyString a s) = some v := by
   obtain ⟨qi, b, hqi, rfl, hb⟩ := decodeLit_inv hv
   have hne : qi ≠ 96 := by
     simp only [List.head?_cons, Option.some.injEq] at hq
     omega
-  have hgb : Guard b = true := by simpa using hg
+  have hgb : Guard false b = true := by simpa [NoNul] using hg
   by_cases hbn : b = []
   · subst hbn
     have : minifyString a (qi :: ([] ++ [qi])) = [34, 34] := minifyString_empty
@@ -209,18 +237,21 @@ theorem minifyString_value {m a : Bool} {s v : List Nat} (hq : s.head? = some 39
     cases m <;> rfl
   · rw [minifyString_wrap hbn, decodeLit_wrap (chooseQuote_isQ a b), rep_eq_repA]
     have cx : Ctx m qi (chooseQuote a b) := ⟨hqi, chooseQuote_isQ a b, fun h => absurd h hne⟩
-    exact sim_all cx b.length b (Nat.le_refl _) v hgb hb
+    by_cases h96 : chooseQuote a b = 96
+    · have hgt : Guard true b = true := guard_true_of hgb (chooseQuote_tmpl h96)
+      exact sim_all (cf := true) cx (fun _ => rfl) b.length b (Nat.le_refl _) v hgt hb
+    · exact sim_all (cf := false) cx (fun h => absurd h.2.2 h96) b.length b (Nat.le_refl _) v hgb hb
 
 /-- value preservation for substitution-free templates on the guarded fragment -/
 theorem templateLit_value {m : Bool} {s v : List Nat} (hq : s.head? = some 96)
-    (hv : decodeLit m s = some v) (hg : Guard ((s.drop 1).dropLast) = true) :
+    (hv : decodeLit m s = some v) (hg : NoNul ((s.drop 1).dropLast) = true) :
     decodeLit m (templateLit s) = some v := by
   obtain ⟨qi, b, hqi, rfl, hb⟩ := decodeLit_inv hv
   have h96 : qi = 96 := by simpa using hq
   subst h96
-  have hgb : Guard b = true := by simpa using hg
+  have hgb : Guard false b = true := by simpa [NoNul] using hg
   rw [templateLit_wrap, decodeLit_wrap hqi, rep_eq_repA]
   have cx : Ctx m 96 96 := ⟨hqi, hqi, fun h => h⟩
-  exact sim_all cx b.length b (Nat.le_refl _) v hgb hb
+  exact sim_all (cf := false) cx (fun h => absurd rfl h.2.1) b.length b (Nat.le_refl _) v hgb hb
 
 end Verif.Proofs.JsString
